@@ -78,8 +78,10 @@ def _frames(fd_stack):
 
 def _strategy(dll):
     fd = dll == "j1939-22"
+    # "in_hold": the conforming peer sends a complete RTS/CTS transfer TO the stack but its last frame (last data packet /
+    # end-of-message status) is late: it is released when the stack writes its receive time-out abort (see reactions)
     own = st.builds(lambda t, kind, n: {"t": t, "kind": kind, "n": n}, st.sampled_from([0.0, 0.0, 0.001, 0.05, 0.3, 1.0]),
-                    st.sampled_from(["rts", "rts", "rts_x", "bam"]), st.integers(61, 400) if fd else st.integers(9, 80))
+                    st.sampled_from(["rts", "rts", "rts_x", "bam", "in_hold"]), st.integers(61, 400) if fd else st.integers(9, 80))
     # (a tuple mapped to a dict rather than fixed_dictionaries: hypothesis.fuzz_one_input rejects every byte string
     # for fixed_dictionaries with more than three keys in this Hypothesis version - see DESIGN.md 8)
     # reactive injection: when the stack itself transmits its n-th frame of a class (its own time-out abort, a data frame, an
@@ -96,7 +98,7 @@ def _strategy(dll):
     race = st.tuples(
         st.lists(_frames(fd), min_size=1, max_size=3),
         st.lists(st.builds(lambda t, kind, n: {"t": t, "kind": kind, "n": n}, st.sampled_from([0.0, 0.001, 0.05]),
-                           st.sampled_from(["rts", "rts", "rts_x", "rts_x", "bam"]), st.integers(61, 300) if fd else st.integers(9, 60)),
+                           st.sampled_from(["rts", "rts", "rts_x", "rts_x", "bam", "in_hold", "in_hold"]), st.integers(61, 300) if fd else st.integers(9, 60)),
                  min_size=1, max_size=2),
         st.sampled_from([1, 2, 255]),
         st.lists(st.sampled_from([1, 2, 255]), min_size=1, max_size=2),
@@ -262,6 +264,12 @@ class C07:
                         classes.append("rts")
                 for c in classes:
                     seen[c] += 1
+                if "abort" in classes and f["ps"] == SA_P:
+                    # the stack gives an inbound session of the conforming peer up: the peer's late last frame was already on
+                    # its way and arrives 0.1-0.6 ms later (while the abort is still being written when writes take time)
+                    for ss in held:
+                        if ss.get("held") and not ss.get("released"):
+                            w.sim.schedule(w.sim.now + 0.0001, (lambda ss=ss: peer.release(ss)))
                 for r in reacts:
                     if r.get("done") or r["cls"] not in classes or seen[r["cls"]] != r["nth"]:
                         continue
@@ -286,9 +294,15 @@ class C07:
                 t += fr["gap"]
                 w.at(t, inject(fr))
                 w.at(t + 0.0015, sample)
+            held = []
             for o in p["own"]:
                 def own(o=o):
                     d = W.make_payload({"n": o["n"], "cls": "arith", "a": 3, "b": 5})
+                    if o["kind"] == "in_hold":
+                        ss = peer.originate_rts(SA_S, 0xC300, bytes(d), limit=255, dt_gap=0.001, session=len(held) & 7)
+                        ss["hold_last"] = True
+                        held.append(ss)
+                        return
                     try:
                         s.cas["s"].send_pgn(0, PGN_OWN >> 8, {"rts": SA_P, "rts_x": SA_X}.get(o["kind"], 255), 6, list(d))
                     except Exception as e:  # noqa
@@ -300,7 +314,8 @@ class C07:
             own_end = 0.0
             for o in p["own"]:
                 pk = -(-o["n"] // seg)
-                dur = {"bam": (pk + 2) * ((0.011 if fd else 0.051) + p.get("tx_time", 0.0)), "rts_x": 0.0}.get(
+                dur = {"bam": (pk + 2) * ((0.011 if fd else 0.051) + p.get("tx_time", 0.0)), "rts_x": 0.0,
+                       "in_hold": (pk + 2) * (0.004 + 2 * p.get("tx_time", 0.0))}.get(
                     o["kind"], (pk + 2) * (max(p.get("reply_lat", [0.003])) + 0.003 + 2 * p.get("tx_time", 0.0)))
                 own_end = max(own_end, 0.05 + o["t"] + dur)
             t_rel = max(t, own_end) + t_max + 0.3
